@@ -363,7 +363,7 @@ func cmdCheck(args []string) int {
 			idx++
 			cexPath := filepath.Join(outDir, fmt.Sprintf("%s.%d.cex.json", o.ID, idx))
 			doc := map[string]interface{}{"property": prop, "obligation": o.ID, "package": o.Pkg, "harness": o.Func, "kind": v.Kind,
-				"msg": v.Msg, "where": v.Where, "use": o.Opts["use"], "model": v.Model, "decisions": v.Decisions, "choices": v.Choices}
+				"msg": v.Msg, "where": v.Where, "use": o.Opts["use"], "tier": *tier, "model": v.Model, "decisions": v.Decisions, "choices": v.Choices}
 			b, _ := json.MarshalIndent(doc, "", " ")
 			os.WriteFile(cexPath, b, 0o644)
 			ve := vioEvidence{Kind: v.Kind, Msg: v.Msg, Where: v.Where, Cex: cexPath, Replay: "skipped"}
@@ -567,8 +567,12 @@ func nativeReplay(cexPath, genDir string) (bool, string) {
 		Use     string `json:"use"`
 		Kind    string `json:"kind"`
 		Msg     string `json:"msg"`
+		Tier    string `json:"tier"`
 	}
 	json.Unmarshal(b, &doc)
+	if doc.Tier == "" {
+		doc.Tier = "quick"
+	}
 	if genDir == "" {
 		genDir = filepath.Join(verifDir, "out", "gen-replay")
 		all, err := sx.Discover(filepath.Join(verifDir, "harness"))
@@ -605,7 +609,7 @@ func nativeReplay(cexPath, genDir string) (bool, string) {
 	cmd := exec.Command("go", "test", "-overlay", ovJSON, "-ldflags=-checklinkname=0", "-vet=off", "-count=1", "-run", "^TestVerifReplay$", "-timeout", "300s", "./"+doc.Package)
 	cmd.Dir = repoDir
 	cmd.Env = append(os.Environ(), "GOFLAGS=-mod=mod", "GOPROXY=off", "GOSUMDB=off", "GOTOOLCHAIN=local",
-		"VERIF_HARNESS="+doc.Harness, "VERIF_INPUT="+cexPath, "VERIF_OUTPUT="+outJSON, "VERIF_USE="+doc.Use)
+		"VERIF_HARNESS="+doc.Harness, "VERIF_INPUT="+cexPath, "VERIF_OUTPUT="+outJSON, "VERIF_USE="+doc.Use, "VERIF_TIER="+doc.Tier)
 	out, _ := cmd.CombinedOutput()
 	rb, err := os.ReadFile(outJSON)
 	if err != nil {
